@@ -514,11 +514,76 @@ def node_level_worker(part, arg):
     part.nstates(1)
 
 
+def c60_positions():
+    """truncated icosahedron, C-C 1.42 A (radius 3.52 A): its promolecule surface at the default isovalue has an inner sheet round a cavity"""
+    import itertools
+
+    phi = (1 + 5 ** 0.5) / 2
+    base = [(0, 1, 3 * phi), (1, 2 + phi, 2 * phi), (phi, 2, 2 * phi + 1)]
+    pts = set()
+    for b in base:
+        for signs in itertools.product((1, -1), repeat=3):
+            v = tuple(x * s for x, s in zip(b, signs))
+            for perm in ((0, 1, 2), (1, 2, 0), (2, 0, 1)):       # even permutations
+                pts.add(tuple(round(v[i], 9) for i in perm))
+    P = np.array(sorted(pts)) * 0.71
+    assert len(P) == 60
+    return P
+
+
+def cavity_worker(part, _):
+    """a molecule whose surface has TWO sheets: the solid lies between them, so the atoms are inside (winding number 1) and the centre of
+    the cage is outside (winding number 0); the enclosed volume is outer minus cavity"""
+    import trimesh
+    from chmpy.core.element import Element
+    from chmpy.core.molecule import Molecule
+    from chmpy.surface import promolecule_density_isosurface
+    from chmpy import PromoleculeDensity
+
+    pos = c60_positions()
+    zs = np.full(60, 6)
+    rho_centre = float(interp.promolecule_rho(zs, pos, np.zeros((1, 3)))[0][0])
+    case = {"kind": "cavity"}
+    if not rho_centre < 0.5 * 0.002:
+        part.skip("no cavity at the default isovalue")
+        return
+    for route in ("molecule", "function"):
+        part.ev()
+        part.tr()
+        try:
+            if route == "molecule":
+                tm = Molecule([Element.from_atomic_number(6)] * 60, pos.copy()).promolecule_density_isosurface(separation=0.5)
+                v, f = np.asarray(tm.vertices), np.asarray(tm.faces)
+            else:
+                m_ = promolecule_density_isosurface(PromoleculeDensity((zs, pos)), sep=0.5)
+                v, f = np.asarray(m_.vertices), np.asarray(m_.faces)
+        except Exception as e:
+            part.fail("cavity:raise:%s" % route, "promolecule surface of C60 (%s) raised %r" % (route, e), case)
+            continue
+        v2, f2, _ = mesh.merge_vertices(v, f, 1e-7)
+        r = surface_oracle(part, v2, f2, pos, np.zeros((0, 3)), (pos.min(axis=0) - 8.0, pos.max(axis=0) + 8.0), case, "cavity:%s" % route)
+        if r is None:
+            continue
+        wc = float(mesh.winding_numbers(v2, f2, np.zeros((1, 3)))[0])
+        sv = mesh.signed_volume(v2, f2)
+        comps = trimesh.Trimesh(vertices=v2, faces=f2, process=False).split(only_watertight=False)
+        vols = sorted(abs(mesh.signed_volume(np.asarray(c.vertices), np.asarray(c.faces))) for c in comps)
+        if not (abs(wc) <= 1e-5):
+            part.fail("cavity:centre-enclosed:%s" % route, "the centre of the C60 cage (density %.2g, below the isovalue) has winding number %.3f: the inner sheet is oriented like the outer one" % (rho_centre, wc), case)
+        elif len(vols) == 2 and not (abs(abs(sv) - (vols[1] - vols[0])) <= 1e-6 * vols[1]):
+            part.fail("cavity:volume:%s" % route, "enclosed volume %.4f is not outer %.4f minus cavity %.4f" % (abs(sv), vols[1], vols[0]), case)
+        part.outcome(("cavity", route, len(vols)))
+    part.nstates(1)
+
+
 def wrapper_worker(part, job):
     """user-level wrappers returning Trimesh objects"""
     import trimesh
 
     which, arg = job
+    if which == "cavity":
+        cavity_worker(part, None)
+        return
     if which == "node-level":
         node_level_worker(part, arg)
         return
@@ -626,6 +691,7 @@ def run(ctx):
         jobs.append(("wrap", ("molecule", name)))
         if name in ("H2O", "CO2", "CH4"):
             jobs.append(("wrap", ("node-level", name)))
+    jobs.append(("wrap", ("cavity", "C60")))
     for f in ("acetic_acid.cif", "iceII.cif"):
         jobs.append(("wrap", ("crystal-hirshfeld", f)))
         jobs.append(("wrap", ("crystal-promolecule", f)))
@@ -669,6 +735,8 @@ def replay(ctx, case):
     elif k == "surf":
         j = case["job"]
         surf_worker(ctx, (j[0], j[1], j[2], j[3], tuple(j[4]), j[5]))
+    elif k == "cavity":
+        cavity_worker(ctx, None)
     elif k == "nodelevel":
         node_level_worker(ctx, case["mol"])
     elif k == "wrapper":
